@@ -166,6 +166,7 @@ def run(ctx):
               '7..40) x random n_constraints/same_length/n_chunks/chunk_size/k_genuine/k_impostor in 1..5/1..3 x integer '
               'seeds, points on a 4x4 integer grid with duplicates; distinct by (call, label vector, parameters, seed); '
               'non-trivial = the case lies inside the property quantifier (decided by TLC: InQuantifier*)' % (n, nl))
+  ctx.rule += " Plus the executions of the repository's own test suite recorded by the pytest tracing plugin (one case per test / per estimator object; distinct by test id)."
   pairs = core.generate(MOD, rs)
   verdicts, _ = core.judge(ctx, *SPEC, pairs, signature_of)
   nev = 0
